@@ -21,7 +21,7 @@ import (
 // ---- plans: what a fresh child process executes ------------------------------
 
 type op struct {
-	Kind     string `json:"kind"` // encode | new | check | valid | seed | string
+	Kind     string `json:"kind"` // encode | new | check | valid | seed | string | sleep (N seconds of idle time)
 	Lang     int64  `json:"lang"`
 	Entropy  hexb   `json:"entropy,omitempty"`
 	ExtraCap int    `json:"extra_cap,omitempty"` // spare capacity behind the entropy slice
@@ -61,6 +61,21 @@ type plan struct {
 	// TeeNew: after the probe, run these NewMnemonic calls with a recording tee around
 	// the previously installed source (C07: output is a function of that source's bytes only).
 	TeeNew []op `json:"tee_new,omitempty"`
+}
+
+// idleSeconds: the idle time the plan asks for (sleep ops).
+func (p *plan) idleSeconds() int {
+	n := 0
+	for _, ph := range p.Phases {
+		for _, g := range ph.Goroutines {
+			for _, o := range g {
+				if o.Kind == "sleep" {
+					n += int(o.N)
+				}
+			}
+		}
+	}
+	return n
 }
 
 type obs struct {
@@ -260,6 +275,8 @@ func execOnce(o *op, watch *[]liveBuf, name string) obs {
 			} else if watch != nil {
 				*watch = append(*watch, liveBuf{name: name + " returned seed", live: b[:cap(b)], snap: append([]byte(nil), b[:cap(b)]...)})
 			}
+		case "sleep":
+			time.Sleep(time.Duration(o.N) * time.Second)
 		case "string":
 			s := lang.String()
 			r.Str = text(strings.Clone(s))
@@ -448,11 +465,11 @@ func spawnChild(p *plan, race bool) *childRun {
 	run := &childRun{}
 	select {
 	case err = <-done:
-	case <-time.After(120 * time.Second):
+	case <-time.After(time.Duration(120+p.idleSeconds()) * time.Second):
 		cmd.Process.Kill()
 		<-done
 		run.Exit = -2
-		run.Stderr = "child did not finish within 120 s\n" + stderr.String()
+		run.Stderr = "child did not finish within 120 s (plus its planned idle time)\n" + stderr.String()
 		return run
 	}
 	run.Stderr = stderr.String()
